@@ -17,7 +17,11 @@ FT = [
     (sx.tgen('Option', sx.tid('u8')), 'Option<u8>', 'Some(200)'),
     (sx.tid('Inner'), 'Inner', 'Inner { x: 7, y: (-1, 0.25) }'),
     (sx.tid('T'), 'T', '255u16'),
+    # a path with a leading `::` that carries the parameter only in its generic arguments
+    (sx.tpath(['core', 'option', sx.seg('Option', ('angle', [sx.gty(sx.tid('T'))]))], lead=True),
+     '::core::option::Option<T>', 'Some(255u16)'),
 ]
+TGEN = ('T', '::core::option::Option<T>')
 SPECS = ['{:?}', '{:#?}', '{:5?}', '{:<8?}', '{:+?}', '{:.2?}', '{:x?}', '{:#x?}', '{:08.3?}', '{:^12.1?}', '{:#X?}']
 
 
@@ -152,7 +156,7 @@ class C10(Prop):
         for k, (is_enum, vs) in enumerate(shape_list(rng, tier)):
             raw = (k % 5 == 3)
             mode = 'attr' if k % 2 else 'derive'
-            uses_t = any(FT[fi][1] == 'T' for _, fts in vs for fi, _ in fts)
+            uses_t = any(FT[fi][1] in TGEN for _, fts in vs for fi, _ in fts)
             gen = sx.generics([sx.gp_ty('T')]) if uses_t else None
             if is_enum:
                 it = sx.enum('E', [sx.variant(vn(i, raw), fields_s(kind, fts, raw)) for i, (kind, fts) in enumerate(vs)], gen=gen)
@@ -198,7 +202,7 @@ class C10(Prop):
                     (', _P(::core::marker::PhantomData<T>)' if m['generic'] else '')))
             else:
                 vi, kind, decl = twin[0]
-                uses_t_kept = any(FT[fi][1] == 'T' and f != 'I' for fi, f in m['vs'][0][1])
+                uses_t_kept = any(FT[fi][1] in TGEN and f != 'I' for fi, f in m['vs'][0][1])
                 if m['generic'] and not uses_t_kept:
                     src.append('pub mod twin { use super::*; #[derive(Debug)] pub struct X %s%s }' % (
                         decl, ';' if kind != 'named' else ''))
@@ -221,7 +225,7 @@ class C10(Prop):
                             tpath = 'twin::E::<u16>::%s' % vn(vi, m['raw'])
                         ref = 'format!("%s", %s %s)' % (spec, tpath, tw)
                     rpath = path
-                    if m['generic'] and not any(FT[fi][1] == 'T' for fi, _ in fts):
+                    if m['generic'] and not any(FT[fi][1] in TGEN for fi, _ in fts):
                         rpath = ('E::<u16>::%s' % vn(vi, m['raw'])) if m['enum'] else 'X::<u16>'
                     src.append('    println!("%d\\tv%ds%d\\t{}", format!("%s", %s %s) == %s);'
                                % (r.cid, vi, si, spec, rpath, real, ref))
